@@ -183,6 +183,19 @@ pub struct StateDump {
     pub seek_compaction: Option<(u64, usize)>,
 }
 
+/// What one iteration of `DB::make_room_for_write` read under the database mutex.
+#[derive(Clone, Copy, Debug, PartialEq, Eq)]
+pub struct RoomView {
+    pub force: bool,
+    pub allow_delay: bool,
+    pub bad: bool,
+    pub level0_files: usize,
+    pub fits: bool,
+    pub empty: bool,
+    pub imm: bool,
+    pub prev_wal: bool,
+}
+
 /// Internal transitions recorded for trace validation.
 #[derive(Clone, Debug, PartialEq, Eq)]
 pub enum Event {
@@ -283,6 +296,9 @@ pub enum Event {
         begin: Option<IKey>,
         end: Option<IKey>,
     },
+    /// one iteration of `DB::make_room_for_write`: what it read and the branch it took ("errBad",
+    /// "delay", "proceed", "waitImm", "waitL0", "errPrevWal", "rotate")
+    MakeRoom { view: RoomView, branch: &'static str },
     /// `remove_obsolete_files` decided what to delete: what it consulted (live table numbers, WAL
     /// numbers, manifest number), every non-directory path it looked at with the folder it was
     /// found in ("wal", "data", "main"), and the paths it put on its deletion list
@@ -1140,6 +1156,17 @@ pub(crate) fn level_one_max_bytes() -> Option<u64> {
 
 static SEEK_EVENTS: std::sync::atomic::AtomicBool = std::sync::atomic::AtomicBool::new(false);
 static READ_SAMPLE_PERIOD: std::sync::atomic::AtomicU64 = std::sync::atomic::AtomicU64::new(0);
+
+static ROOM_EVENTS: std::sync::atomic::AtomicBool = std::sync::atomic::AtomicBool::new(false);
+
+/// Record an `Event::MakeRoom` for every iteration of `DB::make_room_for_write`.
+pub fn set_room_events(enabled: bool) {
+    ROOM_EVENTS.store(enabled, std::sync::atomic::Ordering::SeqCst);
+}
+
+pub(crate) fn room_events() -> bool {
+    ROOM_EVENTS.load(std::sync::atomic::Ordering::SeqCst)
+}
 
 /// Record an `Event::Seek` for every get that reaches the tables and every read sample.
 pub fn set_seek_events(enabled: bool) {
